@@ -31,7 +31,8 @@ def present(mods, sc, container_name="set"):
     pnoise = named(d["pnoise"])
     sensors = {k: named(v) for k, v in named(d["sensors"]).items()}
     snoise = {k: named(v) for k, v in named(d["snoise"]).items()}
-    names = set(d["state"]) | set(d["control"]) | set(d["calib"]) | set(update) | set(calmap) | set(pnoise) | {"dt"}
+    ppairs = named(d.get("ppairs", {}))
+    names = set(d["state"]) | set(d["control"]) | set(d["calib"]) | set(update) | set(calmap) | (set(pnoise) - set(ppairs)) | {"dt"}
     for t in list(update.values()) + [t for m in sensors.values() for t in m.values()]:
         names |= tree_syms(t)
     symtab = {n: ui.Symbol(n) for n in sorted(names)}
@@ -47,7 +48,7 @@ def present(mods, sc, container_name="set"):
             out[ent] = ["refused", type(e).__name__ + ": " + str(e)[:120]]
         return out
     cm = {symtab[n]: fl(q) for n, q in calmap.items()}
-    pn = {symtab[n]: fl(q) for n, q in pnoise.items()}
+    pn = {(symtab[n] if n not in ppairs else (symtab[ppairs[n][0]], symtab[ppairs[n][1]])): fl(q) for n, q in pnoise.items()}
     sm = {k: {r: to_sympy(t, symtab) for r, t in m.items()} for k, m in sensors.items()}
     sn = {k: {r: fl(q) for r, q in m.items()} for k, m in snoise.items()}
     cfg = {"common_subexpression_elimination": False}
@@ -102,7 +103,7 @@ def fault_key(sc):
 
 def run(ctx):
     quick = ctx.quick
-    cfg = "MC_C14_singles.cfg" if quick else "MC_C14_pairs.cfg"
+    cfg = "MC_C14_pairs.cfg"      # singles and all pairs: the whole catalogue costs a few seconds
     r = tlc.run("MC_C14", cfg=cfg, workers=8, timeout=600, coverage=True)
     if r.violation:
         ctx.violation("spec-invariant", r.violation[:800], {})
@@ -119,7 +120,7 @@ def run(ctx):
                 items.append((sc, cont))
         else:
             items.append((sc, "set"))
-            if not quick and len(sc["faults"]) == 1:
+            if len(sc["faults"]) == 1:
                 items.append((sc, "list"))
     ctx.log("TLC: %d states, %d distinct faulted/valid definitions -> %d presentations x 5 entry points" % (r.distinct, len(cases), len(items)))
     chunks = [items[i::ctx.cores] for i in range(ctx.cores)]
@@ -151,12 +152,12 @@ def run(ctx):
                 elif "BUT-FILE-WRITTEN" in info:
                     ctx.violation("refused-but-file-written:%s:%s" % (ent, fault_key(sc)), info, {"case": sc, "observed": out})
     cov = {"evaluations": n_eval, "distinct_nontrivial": len(cases), "fault_kinds_or_pairs": len(kinds),
-           "rule": "case = valid base definition (4 bases: control/calibration/sensor combinations) with 0, 1%s faults of the 20-kind catalogue injected "
+           "rule": "case = valid base definition (4 bases: control/calibration/sensor combinations) with 0, 1%s faults of the 21-kind catalogue injected "
                    "at every applicable position; distinct = distinct resulting definitions; every case is presented to ui.Model, python.compile, "
-                   "python.compile_ekf, cpp.compile, cpp.compile_ekf; valid bases with set/list/tuple/frozenset containers" % ("" if quick else " or 2"),
+                   "python.compile_ekf, cpp.compile, cpp.compile_ekf; valid bases with set/list/tuple/frozenset containers" % " or 2",
            "samples": [{"base": c["base"], "faults": c["faults"], "expected": c["expected"]} for c in cases[1:4]],
            "exhaustive": True, "states": r.distinct, "transitions": r.states,
-           "exhaustive_scope": "all single faults%s of the catalogue on 4 bases" % ("" if quick else " and all pairs")}
+           "exhaustive_scope": "all single faults and all pairs of the catalogue on 4 bases"}
     return finish(ctx, LEVEL, cov, ASSUME)
 
 
